@@ -22,6 +22,7 @@ type Pool struct {
 
 	real  rsync.Pool
 	items []interface{}
+	owner *simrt.Sim // items belong to one simulation run: a package-level pool must not leak objects (channels!) into the next run
 }
 
 func (p *Pool) Get() interface{} {
@@ -33,6 +34,9 @@ func (p *Pool) Get() interface{} {
 			return p.New()
 		}
 		return nil
+	}
+	if s := simrt.Active(); p.owner != s {
+		p.owner, p.items = s, nil
 	}
 	if n := len(p.items); n > 0 {
 		v := p.items[n-1]
@@ -52,6 +56,9 @@ func (p *Pool) Put(v interface{}) {
 	if simrt.Active() == nil {
 		p.real.Put(v)
 		return
+	}
+	if s := simrt.Active(); p.owner != s {
+		p.owner, p.items = s, nil
 	}
 	p.items = append(p.items, v)
 }
